@@ -1,12 +1,14 @@
 """C15 — Undefined pixels stay undefined: mask semantics and tile persistence."""
 PROPERTY = "C15"
 LEVEL = "other"
-CONTRACT_MODULES = ["contracts.specfuns", "contracts.image"]
+CONTRACT_MODULES = ["contracts.specfuns", "contracts.lemmas_desc", "contracts.pyramid", "contracts.image", "contracts.merge", "contracts.pyramidio"]
 FUNCTIONS = [
     "toasty.image.Image.fill_into_maskable_buffer",
     "toasty.image.Image.update_into_maskable_buffer",
     "toasty.image.Image.clear",
     "toasty.image.Image.is_completely_masked",
+    "toasty.pyramid.PyramidIO.write_image",
+    "toasty.pyramid.PyramidIO.read_image",
 ]
 LEMMAS = []
 SLOW = ()
